@@ -21,13 +21,28 @@ func (pt *pathTracker) stillOnUnfollowedRemotePath(newPath datamodel.Path) bool 
 	if pt.lastUnfollowedRemotePath.Len() == 0 {
 		return false
 	}
-	// are we still on it?
-	if newPath.Len() <= pt.lastUnfollowedRemotePath.Len() {
+	// are we still on it? (only paths strictly below the unfollowed link are)
+	if newPath.Len() <= pt.lastUnfollowedRemotePath.Len() || !hasPrefix(newPath, pt.lastUnfollowedRemotePath) {
 		// if not, reset to no known missing remote path
 		pt.lastUnfollowedRemotePath = datamodel.NewPath(nil)
 		return false
 	}
 	// otherwise we're on a missing path
+	return true
+}
+
+// hasPrefix reports whether the leading segments of path are exactly the segments of prefix
+func hasPrefix(path datamodel.Path, prefix datamodel.Path) bool {
+	segments := path.Segments()
+	prefixSegments := prefix.Segments()
+	if len(prefixSegments) > len(segments) {
+		return false
+	}
+	for i, segment := range prefixSegments {
+		if !segment.Equals(segments[i]) {
+			return false
+		}
+	}
 	return true
 }
 
